@@ -37,7 +37,7 @@ RULE = ("Histories of 20-60 calls drawn from encode / decode / repair_dna / set_
         "create_random_shuffles / the representation converters / leaf and vertex queries / path_matching / remove_useless / "
         "LocalBioFilter.valid / remove_nasty_arc (in place) on shared objects, k in {2,3}. Per call: argument digests equal "
         "before/after (arc removal excepted), the same call on write-protected copies gives the same result and never writes, "
-        "module globals unchanged, numpy RNG state unchanged except by the two randomised calls, no audit events; verbose=True "
+        "module globals and interpreter-wide state (stdlib random, cwd, environment, sys.path, limits, numpy settings) unchanged, numpy RNG state unchanged except by the two randomised calls, no audit events; verbose=True "
         "gives the same result or the same exception type; a fresh interpreter gives the same result for the recorded "
         "arguments (and seed). Non-trivial: the history holds >= 3 distinct operations; distinct = hash of the history."
         ' Also: the fresh interpreter rebuilds the latter map in another insertion order (an equal dict); a trim -> convert -> remove pipeline whose first argument must stay unchanged; a few ordinary calls after every strip run; every call repeated after its returned object was scrambled in place, in-place edits of the shared accessor / latter map / mask / table by the harness between calls, objects handed back by the library adopted as shared arguments, removal bursts and strip runs (arc removal until it raises), parameters drawn from small pools, histories at order 6 on the cheap operations; the write-protected and verbose twins run as a pass of their own after the history.')
@@ -529,7 +529,7 @@ def check_history(ctx, case):
         # the live call on the shared objects, fully guarded
         objs = S.objects()
         before = {k: guards.digest(v) for k, v in objs.items()}
-        g0, r0 = guards.globals_digest(), guards.rng_digest()
+        g0, r0, a0 = guards.globals_digest(), guards.rng_digest(), guards.ambient_digest()
         with guards.audited() as ev:
             r_live = run_op(dsw, S, name, p)
         after = {k: guards.digest(v) for k, v in S.objects().items()}
@@ -540,6 +540,9 @@ def check_history(ctx, case):
             ctx.fail("argument-modified:" + name, "%s changed during the call; %s" % (changed, where))
         if guards.globals_digest() != g0:
             ctx.fail("module-globals-changed:" + name, "the module globals of dsw changed during the call; %s" % where)
+        if guards.ambient_digest() != a0:
+            ctx.fail("interpreter-state-changed:" + name, "interpreter-wide state (stdlib random generator / cwd / environment / sys.path / limits / "
+                     "numpy error and print settings) changed during the call; %s" % where)
         if not randomised and guards.rng_digest() != r0:
             ctx.fail("rng-state-changed:" + name, "numpy's global RNG state changed during a call that is not randomised; %s" % where)
         effects = [e for e in ev.events if e[0] != "open"]
